@@ -5,13 +5,15 @@
    u (the unit as <<[key, power, prefix]>>)] or [k |-> "err", msg, msg1 (msg up to its first line break)].
      Line(r, exact)   the one line printed for a value
      Matches(..)      standard output consists, in order, of one Line per value and one diagnostic
-                      block per error (first line "error: <msg>", ended by an empty line); then, if
+                      block per error (DiagBlock: message, place, the query, the range underlined, an empty line;
+                      of a query that is not one line of printable ASCII only the first line "error: <msg>"
+                      is prescribed and the block is read up to its empty line); then, if
                       constants were described, the heading and one line per description
    The rendering of a decimal (C08) and the spelling of each single unit are taken from the
    library; this module and UnitDisplay.tla own their composition (blank, plural, powers, order).                                                                       *)
 EXTENDS UnitDisplay
 CONSTANTS Names,     \* unit key -> [sg, pl]: how the tool spells each single unit
-          Syms       \* [dot, sup, micro]: the non-ASCII symbols of unit display
+          Syms       \* [dot, sup, micro]: the non-ASCII symbols of unit display; [corner, bar, caret]: of a diagnostic block
 IsOne(r) == r.num = "1" /\ r.den = "1"
 ValueText(r, exact) == IF exact THEN (IF r.den = "1" THEN r.num ELSE r.num \o "/" \o r.den) ELSE r.decimal
 \* r.u: the unit of the result as <<[key, power, prefix]>>
@@ -24,21 +26,40 @@ DescLine(d) == "\"" \o d.phrase \o "\" => " \o d.description
                  \o (IF ~d.has_source THEN "" ELSE IF d.url # "" THEN " (" \o d.source \o ") <" \o d.url \o ">" ELSE "(" \o d.source \o ")")
 RECURSIVE SkipBlock(_, _)
 SkipBlock(lines, i) == IF i > Len(lines) THEN i ELSE IF lines[i] = "" THEN i + 1 ELSE SkipBlock(lines, i + 1)
-\* position behind the output of results[j..], or 0 if the lines do not match
-RECURSIVE MatchResults(_, _, _, _, _)
-MatchResults(lines, i, results, j, exact) ==
+\* The diagnostic block of one error (any.rs: one primary label at the error's range, carrying the message again), for a
+\* query that is one line of printable ASCII (bytes = characters = columns): the message; where it is (`<in>:1:<column of
+\* the first byte of the range>`); the line of the query; under it one mark per byte of the range, exactly under those
+\* bytes (an empty range is marked by one), and the message; an empty line.  Syms.corner, Syms.bar, Syms.caret are the
+\* renderer's frame and mark, measured from the tool like the spelling of units -- their *placement* is stated here.
+RECURSIVE Rep(_, _)
+Rep(s, n) == IF n <= 0 THEN "" ELSE s \o Rep(s, n - 1)
+DiagBlock(text, r) ==
+  << "error: " \o r.msg,
+     "  " \o Syms.corner \o " <in>:1:" \o ToString(r.s + 1),
+     "  " \o Syms.bar,
+     "1 " \o Syms.bar \o " " \o text,
+     "  " \o Syms.bar \o " " \o Rep(" ", r.s) \o Rep(Syms.caret, IF r.e > r.s THEN r.e - r.s ELSE 1) \o " " \o r.msg,
+     "" >>
+\* position behind the output of results[j..]; 0 if the lines do not match; -1 if the block of an error is not DiagBlock
+\* (text: the query; plain: it is one line of printable ASCII -- otherwise only the first line of a block is prescribed)
+RECURSIVE MatchResults(_, _, _, _, _, _, _)
+MatchResults(lines, i, results, j, exact, text, plain) ==
   IF j > Len(results) THEN i
   ELSE IF i > Len(lines) THEN 0
-  ELSE IF results[j].k = "val" THEN (IF lines[i] = Line(results[j], exact) THEN MatchResults(lines, i + 1, results, j + 1, exact) ELSE 0)
+  ELSE IF results[j].k = "val" THEN (IF lines[i] = Line(results[j], exact) THEN MatchResults(lines, i + 1, results, j + 1, exact, text, plain) ELSE 0)
   \* (a message that echoes a line break of the query continues on the next line: its first line is compared, msg1)
-  ELSE IF lines[i] = "error: " \o results[j].msg1 THEN MatchResults(lines, SkipBlock(lines, i + 1), results, j + 1, exact) ELSE 0
+  ELSE IF lines[i] # "error: " \o results[j].msg1 THEN 0
+  ELSE IF ~plain THEN MatchResults(lines, SkipBlock(lines, i + 1), results, j + 1, exact, text, plain)
+  ELSE IF i + 5 <= Len(lines) /\ SubSeq(lines, i, i + 5) = DiagBlock(text, results[j]) THEN MatchResults(lines, i + 6, results, j + 1, exact, text, plain)
+  ELSE -1
 RECURSIVE MatchDescs(_, _, _, _)
 MatchDescs(lines, i, descs, j) == IF j > Len(descs) THEN i
                                   ELSE IF i > Len(lines) \/ lines[i] # DescLine(descs[j]) THEN 0
                                   ELSE MatchDescs(lines, i + 1, descs, j + 1)
-Matches(lines, results, descs, exact) ==
-  LET i == MatchResults(lines, 1, results, 1, exact) IN
+Matches(lines, results, descs, exact, text, plain) ==
+  LET i == MatchResults(lines, 1, results, 1, exact, text, plain) IN
   IF i = 0 THEN "results"
+  ELSE IF i = -1 THEN "diagnostic"
   ELSE IF descs = <<>> THEN (IF i = Len(lines) + 1 THEN "" ELSE "trailing-output")
   ELSE IF i > Len(lines) \/ lines[i] # Heading THEN "description-heading"
   ELSE LET k == MatchDescs(lines, i + 1, descs, 1) IN
